@@ -6,6 +6,7 @@ import OlVerif.Lower.Stmt
 import OlVerif.Lower.Reject
 import OlVerif.Order.Trace
 import OlVerif.Lower.Binders
+import OlVerif.Sem.Decide
 import OlVerif.Api.Model
 import OlVerif.Ctrl.Run
 
@@ -99,7 +100,9 @@ def opLower (j : Json) : Json :=
         ("tr_t", .arr ((tr (fun _ => true) e).map fun (k : Nat) => Json.num (JsonNumber.fromNat k)).toArray),
         ("tr_f", .arr ((tr (fun _ => false) e).map fun (k : Nat) => Json.num (JsonNumber.fromNat k)).toArray),
         -- `bnd`: the names the output binds (C09.no_foreign_binders speaks about this list)
-        ("bnd", .arr ((bnd e).eraseDups.map Json.str).toArray)])
+        ("bnd", .arr ((bnd e).eraseDups.map Json.str).toArray),
+        -- `simple`: the hypothesis of C01.module_straightline_semantics (M-EVAL), evaluated on this program
+        ("simple", .bool (Sem.simpleModuleB body))])
     | .error err => pure (Json.mkObj [("err", .str err.cls), ("bad", .bool (badModule body))])
   match r with
   | .ok j => j
